@@ -127,6 +127,24 @@ def run(ctx):
     sf = os.path.join(tmp, 'st.bin')
     try:
         progs, events, owner, cases = [], [], [], []
+        seen = set()
+
+        def flush():
+            """Validate the traces collected so far (bounded batches: one JSON file per TLC run must stay loadable)."""
+            if not events:
+                return
+            slim = [{k_: v for k_, v in e.items() if k_ not in ('raw', 'detail')} for e in events]
+            verdicts = ctx.validate('Interp_Trace', slim, header={'progs': list(progs)}, timeout=3000)
+            for (i, clause) in verdicts:
+                ci = owner[i - 1]
+                if ci in seen or clause == 'outside_fragment':
+                    continue
+                seen.add(ci)
+                e = events[i - 1]
+                ctx.reject('C40 %s after suspend/resume at boundary %d: event %s' % (clause, cases[ci][1], {k_: e[k_] for k_ in e if k_ != 'vars'}),
+                           key={'clause': clause}, data={'program': cases[ci][0], 'k': cases[ci][1]})
+            del progs[:], events[:], owner[:]
+
         for pn in range(nprog):
             g = G.Gen(rng, rng.choice([{'ctl'}, {'ctl', 'err'}, {'ctl', 'data', 'err'}, {'ctl', 'stray', 'err'}]))
             prog, text = g.program(size=rng.choice([5, 8, 10]))
@@ -141,6 +159,8 @@ def run(ctx):
                 events += ev
                 ctx.count([text, k])
                 k += 1
+            if len(events) > 60000:
+                flush()
         # every program of the declarative error-trap family (all fault kinds incl. faults raised inside an expression,
         # all RESUME forms), suspended at every boundary - in particular between the failing statement and the handler
         from .. import interp_check
@@ -161,19 +181,11 @@ def run(ctx):
                 events += ev
                 ctx.count([text, k])
                 k += 1
-        slim = [{k_: v for k_, v in e.items() if k_ not in ('raw', 'detail')} for e in events]
-        verdicts = ctx.validate('Interp_Trace', slim, header={'progs': progs}, timeout=3000)
+            if len(events) > 60000:
+                flush()
+        flush()
         ctx.cov['traces_validated_against_impl'] += len(cases)
         ctx.cov['suspend_points'] = len(cases)
-        seen = set()
-        for (i, clause) in verdicts:
-            ci = owner[i - 1]
-            if ci in seen or clause == 'outside_fragment':
-                continue
-            seen.add(ci)
-            e = events[i - 1]
-            ctx.reject('C40 %s after suspend/resume at boundary %d: event %s' % (clause, cases[ci][1], {k_: e[k_] for k_ in e if k_ != 'vars'}),
-                       key={'clause': clause}, data={'program': cases[ci][0], 'k': cases[ci][1]})
         if cases:
             ctx.sample({'program': cases[0][0][:10], 'suspend_at_boundary': cases[0][1]})
         # ---- programs with files / strings / arrays / screen: whole final observation ----
